@@ -159,8 +159,13 @@ impl Relation for ZkirRelation {
     }
 
     fn read_relation<R: io::Read>(reader: &mut R) -> io::Result<Self> {
-        let program: Program = bincode::decode_from_std_read(reader, bincode::config::standard())
-            .map_err(io::Error::other)?;
+        // The input is untrusted: bound what the length prefixes of the encoding may
+        // claim, so that a few bytes cannot request gigabytes (or overflow the
+        // capacity computation).
+        const MAX_PROGRAM_BYTES: usize = 1 << 23;
+        let config = bincode::config::standard().with_limit::<MAX_PROGRAM_BYTES>();
+        let program: Program =
+            bincode::decode_from_std_read(reader, config).map_err(io::Error::other)?;
 
         Self::from_instructions(&program.instructions)
             .map_err(|e| io::Error::other(format!("{e:?}")))
